@@ -214,6 +214,27 @@ def tlc_trace(module, cfg, trace_file, extra_env=None, timeout=900, xmx="3g"):
     return True, None, r
 
 
+
+def tlaps(module, deps, timeout=600):
+    """Check the TLAPS proofs of spec/<module>.tla (and the modules it extends, `deps`) with tlapm in a scratch copy.
+    Returns the number of proved obligations; raises ToolError when an obligation is not proved (a proof is about the
+    SPECIFICATION, so a failure is never reported as a violation of the code)."""
+    d = workdir("tlaps/%s-%d-%d" % (module, os.getpid(), next(_counter)))
+    for m in [module] + list(deps):
+        shutil.copy(os.path.join(SPEC, m + ".tla"), d)
+    try:
+        p = subprocess.run(["tlapm", "--threads", "4", module + ".tla"], cwd=d, stdout=subprocess.PIPE, stderr=subprocess.STDOUT,
+                           text=True, timeout=timeout)
+    except subprocess.TimeoutExpired:
+        raise ToolError("tlapm %s: timeout" % module)
+    finally:
+        pass
+    m = re.search(r"All (\d+) obligations? proved", p.stdout)
+    shutil.rmtree(d, ignore_errors=True)
+    if not m:
+        raise ToolError("tlapm %s: %s" % (module, p.stdout[-1200:]))
+    return int(m.group(1))
+
 def background(fn, *a, **kw):
     """Run fn in a thread; returns a handle whose .result() re-raises."""
     from concurrent.futures import ThreadPoolExecutor
